@@ -5,7 +5,7 @@ SPEC = {
                  "text": "Theorems in coq/theories/ConfigLemmas.v for all schemas, states and values: a fresh configuration marks every declared key as default and exposes the declared default (callable defaults evaluated per build through a call counter); an accepted assignment is exactly `store`: the key becomes user-defined, reads back the stored value, no other key's value or mark changes, object identity kept (store_spec, set_value_ok); a rejected assignment changes nothing (set_value_err); reset restores default value and mark and touches nothing else (reset_spec). Tied to the code by comparing values and _default_value_keys of every (sub)configuration after every step of random histories, plus a direct oracle on is_value_defined semantics.",
                  "note": 'Trusted: Coq kernel + vm_compute; harness. Virtual and instance-method fields hold no value and are outside the model (finding F27 region). No axioms.',
                  "design_ref": "DESIGN.md section 6 C12"},
-    "streams": ['co12', 'defaults'],
+    "streams": ['co12', 'defaults', 'configfields'],
     "witnesses": [],
     "rule": 'as C06, with reset-heavy histories',
     "trusted_base": [KERNEL, "Print Assumptions: closed under the global context (no axioms)", TIE, HARNESS,
